@@ -179,6 +179,10 @@ def r_raw(P, R):
                             # the validator call itself may be the writer
                             if node is first_write[0]:
                                 continue
+                            if any((f.qualname, v) in FEASIBILITY
+                                   and text == f'validator {v}()'
+                                   for v in VALIDATORS):
+                                continue
                             bad = bad or (path, node, text, first_write)
                 if it[0] == 'exit' and it[2] == 'raise' and \
                         first_write is not None:
